@@ -132,11 +132,15 @@ class PsProc:
         return [PsProc(self.proc.child, self.trace, child=True)]
 
     def terminate(self):
-        # the solver itself exits on SIGTERM; its child ignores SIGTERM (only SIGKILL ends it)
-        if not self.is_child:
+        # the solver itself exits on SIGTERM (unless the scenario says it ignores it); its child ignores SIGTERM
+        if not self.is_child and not getattr(self.proc, "ignores_sigterm", False):
             self.proc.die(-15, "KILLED")
 
     def wait(self, timeout=None):
+        if self.proc.alive:
+            import psutil
+
+            raise psutil.TimeoutExpired(timeout, pid=getattr(self.proc, "pid", None))
         return 0
 
     def is_running(self):
@@ -350,7 +354,7 @@ def replay_cancel_before_start(r):
 
 def cancel_cases():
     out = []
-    for st in ("not-started", "running", "already-dead", "vanished-during-cancel"):
+    for st in ("not-started", "running", "running, ignores SIGTERM", "already-dead", "vanished-during-cancel"):
 
         def harness(interp, st=st):
             ctx = interp.ctx
@@ -364,6 +368,8 @@ def cancel_cases():
                 p = StubProc(trace, "ok")
                 procs.append(p)
                 fut.process = p
+                if st == "running, ignores SIGTERM":
+                    p.ignores_sigterm = True
                 if st == "already-dead":
                     p.die(0, "NATURAL-END")
                 if st == "vanished-during-cancel":
@@ -375,7 +381,7 @@ def cancel_cases():
                     raise
                 ctx.oblige(f"cancel-never-raises[{type(e).__name__}]", z3.BoolVal(False), info={"msg": str(e)[:200]})
                 return
-            if st == "running":
+            if st.startswith("running"):
                 ctx.oblige("a running process is terminated and its pipes are closed", z3.BoolVal(not p.alive and p.stdout.closed and p.stderr.closed))
                 ctx.oblige("the whole process tree is terminated (children too)", z3.BoolVal(hasattr(p, "child") and not p.child.alive))
             elif st == "vanished-during-cancel":
@@ -703,9 +709,10 @@ def join_cases():
         ctx = interp.ctx
         calls = []
         reg = object.__new__(hp.ExecutorRegistry)
-        reg._executors = [NS(shutdown=lambda wait=True, n=n: calls.append((n, wait))) for n in range(3)]
+        # executor 1 is in the middle of its own shutdown(wait=True): its flag is already set, its jobs are still running
+        reg._executors = [NS(shutdown=lambda wait=True, n=n: calls.append((n, wait)), is_shutdown=lambda n=n: n == 1, _shutdown=NS(is_set=lambda n=n: n == 1)) for n in range(3)]
         interp.call(hp.ExecutorRegistry.__dict__["shutdown_all"], [reg], {})
-        ctx.oblige("shutdown_all shuts every registered executor down without waiting", z3.BoolVal(calls == [(0, False), (1, False), (2, False)]))
+        ctx.oblige("shutdown_all shuts every registered executor down without waiting, also one whose own shutdown(wait=True) is still waiting for its jobs (that waiter is released because the jobs are cancelled)", z3.BoolVal(calls == [(0, False), (1, False), (2, False)]), info={"calls": str(calls)})
 
     out.append(Case(f"{PROP}/processes.ExecutorRegistry.shutdown_all", "three executors", harness_registry, sources=("halmos.processes:ExecutorRegistry.shutdown_all",)))
     return out
